@@ -3,6 +3,7 @@
 //! (independent parser + terminal store) is evaluated on them.
 use crate::util::*;
 use serde_json::{json, Value};
+use surf_n_term::image::{DummyImageHandler, ImageHandlerKind};
 use surf_n_term::{
     Image, ImageHandler, KittyImageHandler, Position, Size, Surface, SurfaceOwned, TerminalEvent, RGBA,
 };
@@ -117,7 +118,52 @@ fn cpos(p: (usize, usize)) -> String {
     format!("({}, {})", p.0, p.1)
 }
 
+fn kind_code(k: ImageHandlerKind) -> u8 {
+    match k {
+        ImageHandlerKind::Kitty => 0,
+        ImageHandlerKind::Sixel => 1,
+        ImageHandlerKind::Dummy => 2,
+    }
+}
+
+/// the small cases around the handler interface: ImageHandlerKind::from_str and ImageHandler::kind
+fn run_small(input: &Value) -> Option<Case> {
+    if let Some(s) = input["kind_str"].as_str() {
+        let s2 = s.to_string();
+        let r = catch(move || s2.parse::<ImageHandlerKind>().ok().map(kind_code));
+        let mut j = input.clone();
+        j["impl"] = json!(r);
+        let coq = match r {
+            Some(v) => format!("CaseKind {} {}", cbytes(s.as_bytes()), copt(v.map(|x| x.to_string()))),
+            None => format!("CaseKind {} (Some 99)", cbytes(s.as_bytes())), // a panic: never a valid answer
+        };
+        return Some(Case { coq, json: j, tags: vec!["kind-from-str".into()], nontrivial: false });
+    }
+    if let Some(d) = input["kind_of"].as_str() {
+        let dummy = d.starts_with("dummy");
+        let boxed = d.ends_with("boxed");
+        let k = match (dummy, boxed) {
+            (false, false) => KittyImageHandler::new().kind(),
+            (false, true) => (Box::new(KittyImageHandler::new()) as Box<dyn ImageHandler>).kind(),
+            (true, false) => DummyImageHandler.kind(),
+            (true, true) => (Box::new(DummyImageHandler) as Box<dyn ImageHandler>).kind(),
+        };
+        let mut j = input.clone();
+        j["impl"] = json!(kind_code(k));
+        return Some(Case {
+            coq: format!("CaseKindOf {} {}", cbool(dummy), kind_code(k)),
+            json: j,
+            tags: vec!["kind-of-handler".into()],
+            nontrivial: false,
+        });
+    }
+    None
+}
+
 pub fn run(input: &Value) -> Case {
+    if let Some(c) = run_small(input) {
+        return c;
+    }
     let quiet = input["quiet"].as_bool().unwrap_or(false);
     let descs: Vec<Value> = input["images"].as_array().cloned().unwrap_or_default();
     let built: Vec<(Image, (usize, usize, Vec<Px>))> = descs.iter().map(build).collect();
@@ -135,7 +181,14 @@ pub fn run(input: &Value) -> Case {
         cids.push(k);
     }
     let ops: Vec<Value> = input["ops"].as_array().cloned().unwrap_or_default();
-    let mut handler = if quiet { KittyImageHandler::new().quiet() } else { KittyImageHandler::new() };
+    // "via": "direct" (default) | "box" (Box<dyn ImageHandler>, the forwarding impl) | "dummy" (DummyImageHandler)
+    let via = input["via"].as_str().unwrap_or("direct").to_string();
+    let kitty = if quiet { KittyImageHandler::new().quiet() } else { KittyImageHandler::new() };
+    let mut handler: Box<dyn ImageHandler> = match via.as_str() {
+        "dummy" => Box::new(DummyImageHandler),
+        "box" => Box::new(Box::new(kitty) as Box<dyn ImageHandler>),
+        _ => Box::new(kitty),
+    };
     let mut coq_ops = vec![];
     let mut impl_out: Vec<(Vec<u8>, u8)> = vec![];
     let mut tags = vec![];
@@ -201,10 +254,6 @@ pub fn run(input: &Value) -> Case {
                 let pl: Option<u64> = if let Some(p) = vpos(&o["pl"]["pos"]) {
                     if !built.is_empty() {
                         named.push((cids[k], p));
-                        if p == (65535, 65535) {
-                            // the response is mapped back to (0,0), so this names (0,0) as well
-                            named.push((cids[k], (0, 0)));
-                        }
                     }
                     if built.is_empty() {
                         None
@@ -214,6 +263,11 @@ pub fn run(input: &Value) -> Case {
                 } else {
                     o["pl"]["raw"].as_u64()
                 };
+                if pl == Some(4294967295) && !built.is_empty() {
+                    // the largest id is what both (65534,65535) and (65535,65535) map to; the response is
+                    // read as (65534,65535)
+                    named.push((cids[k], (65534, 65535)));
+                }
                 let err = o["err"].as_bool().unwrap_or(false);
                 if err {
                     n_err += 1;
@@ -294,10 +348,12 @@ pub fn run(input: &Value) -> Case {
         impl_out.iter().map(|(b, r)| json!({"bytes": String::from_utf8_lossy(b), "ret": r})).collect(),
     );
     // Known finding "pid-corner": there are 2^32 positions with coordinates below 65536 but only
-    // 2^32 - 1 valid placement ids, so one pair of positions has to share an id; with the present
-    // numbering it is (0,0) and (65535,65535).  Histories naming both for one content are in the class
-    // (an error response carrying the id of (65535,65535) is mapped back to (0,0) and so names both).
-    let corner = named.iter().any(|(c, p)| *p == (0, 0) && named.iter().any(|(c2, q)| c2 == c && *q == (65535, 65535)));
+    // 2^32 - 1 valid placement ids, so one pair of positions has to share an id (Coq: C11_pid_pigeonhole);
+    // with the present numbering it is (65534,65535) and (65535,65535).  Histories naming both for one
+    // content are in the class (an error response carrying the largest id is mapped back to (65534,65535)).
+    let corner = named
+        .iter()
+        .any(|(c, p)| *p == (65534, 65535) && named.iter().any(|(c2, q)| c2 == c && *q == (65535, 65535)));
     if corner {
         j["known_class"] = json!(["pid-corner"]);
         tags.push("known:pid-corner".into());
@@ -321,26 +377,34 @@ pub fn run(input: &Value) -> Case {
     if stopped {
         tags.push("panic".into());
     }
+    tags.push(format!("via={}", via));
     Case {
-        coq: format!(
-            "Case {} {} {} {} {}",
-            cbool(quiet),
-            imgs_coq,
-            contents_coq,
-            clist(coq_ops.into_iter()),
-            impl_coq
-        ),
+        coq: if via == "dummy" {
+            format!("CaseDummy {} {} {}", imgs_coq, clist(coq_ops.into_iter()), impl_coq)
+        } else {
+            format!(
+                "Case {} {} {} {} {}",
+                cbool(quiet),
+                imgs_coq,
+                contents_coq,
+                clist(coq_ops.into_iter()),
+                impl_coq
+            )
+        },
         json: j,
         tags,
-        nontrivial: n_draw >= 1 && (n_erase >= 1 || n_err >= 1 || repeat_draw) && maxpix >= 1,
+        nontrivial: via != "dummy" && n_draw >= 1 && (n_erase >= 1 || n_err >= 1 || repeat_draw) && maxpix >= 1,
     }
 }
 
 // ---------------------------------------------------------------- generators
 
-fn img_desc(rng: &mut Rng, big: bool) -> Value {
-    let (h, w) = if big {
+fn img_desc(rng: &mut Rng, big: u8) -> Value {
+    // big: 0 = small, 1 = around the one / two / three chunk boundaries, 2 = also up to six chunks (thorough tier)
+    let (h, w) = if big == 2 {
         *rng.pick(&[(32usize, 24usize), (24, 32), (769, 1), (1, 769), (32, 32), (48, 32), (64, 64), (40, 40), (33, 24)])
+    } else if big == 1 {
+        *rng.pick(&[(32usize, 24usize), (24, 32), (769, 1), (1, 769), (32, 32), (33, 24), (40, 40)])
     } else {
         match rng.below(20) {
             0 => (rng.below(2) as usize * 3, rng.below(2) as usize * 3),
@@ -381,14 +445,18 @@ const CORNERS: [(usize, usize); 8] =
     [(0, 0), (0, 65535), (65535, 0), (65535, 65535), (0, 1), (1, 0), (65534, 65535), (65535, 65534)];
 
 fn gen_pos(rng: &mut Rng, pool: &[(usize, usize)]) -> (usize, usize) {
-    match rng.below(10) {
-        0..=5 => *rng.pick(pool),
-        6 | 7 => *rng.pick(&CORNERS),
+    match rng.below(40) {
+        0..=23 => *rng.pick(pool),
+        24..=31 => *rng.pick(&CORNERS),
+        // beyond the 65536 limit of the property's quantifier: compared with the model only
+        32 => (65536 + rng.below(3) as usize, rng.below(3) as usize),
+        33 => (rng.below(3) as usize, 65536 * (1 + rng.below(3) as usize) + rng.below(2) as usize),
+        34 => (usize::MAX - rng.below(2) as usize, (1usize << 40) + rng.below(70000) as usize),
         _ => (rng.below(65536) as usize, rng.below(65536) as usize),
     }
 }
 
-fn gen_history(rng: &mut Rng, big: bool) -> Value {
+fn gen_history(rng: &mut Rng, big: u8) -> Value {
     let nimg = 1 + rng.below(3) as usize;
     let mut images: Vec<Value> = vec![];
     for i in 0..nimg {
@@ -397,13 +465,17 @@ fn gen_history(rng: &mut Rng, big: bool) -> Value {
             let d = images[rng.below(i as u64) as usize].clone();
             images.push(d);
         } else {
-            images.push(img_desc(rng, big && i == 0));
+            images.push(img_desc(rng, if i == 0 { big } else { 0 }));
         }
     }
     let pool: Vec<(usize, usize)> =
         (0..3).map(|_| if rng.chance(1, 3) { *rng.pick(&CORNERS) } else { (rng.below(50) as usize, rng.below(200) as usize) }).collect();
-    let nops = 1 + rng.below(if big { 6 } else { 20 }) as usize;
+    let nops = 1 + rng.below(if big > 0 { 6 } else { 20 }) as usize;
     let mut ops = vec![];
+    if big > 0 {
+        let p = gen_pos(rng, &pool);
+        ops.push(json!({"op":"draw","img":0,"pos":[p.0,p.1]}));
+    }
     for _ in 0..nops {
         let k = rng.below(nimg as u64);
         match rng.below(20) {
@@ -419,7 +491,8 @@ fn gen_history(rng: &mut Rng, big: bool) -> Value {
             14..=16 => {
                 let pl = match rng.below(5) {
                     0 => Value::Null,
-                    1 => json!({"raw": rng.below(1u64 << 33)}),
+                    1 => json!({"raw": *rng.pick(&[0u64, 1, 2, 65536, 65537, 4294967295, 4294967296, u64::MAX]) }),
+                    2 => json!({"raw": rng.below(1u64 << 33)}),
                     _ => {
                         let p = gen_pos(rng, &pool);
                         json!({"pos":[p.0,p.1]})
@@ -432,13 +505,22 @@ fn gen_history(rng: &mut Rng, big: bool) -> Value {
             _ => ops.push(json!({"op":"other","which":rng.below(2)})),
         }
     }
-    json!({"quiet": rng.chance(1, 2), "images": images, "ops": ops})
+    let via = match rng.below(12) {
+        0 => "dummy",
+        1..=4 => "box",
+        _ => "direct",
+    };
+    json!({"quiet": rng.chance(1, 2), "images": images, "ops": ops, "via": via})
 }
 
 pub fn generate(rng: &mut Rng, n: usize, tier: &str) -> Vec<Value> {
     let mut v = vec![];
     // fixed part: one draw of every small size, the chunk boundaries, every corner position
-    for (h, w) in [(0usize, 0usize), (0, 3), (3, 0), (1, 1), (1, 2), (2, 1), (3, 3), (32, 24), (769, 1), (48, 32), (64, 64)] {
+    let mut sizes = vec![(0usize, 0usize), (0, 3), (3, 0), (1, 1), (1, 2), (2, 1), (3, 3), (32, 24), (769, 1), (48, 32), (40, 40)];
+    if tier == "thorough" {
+        sizes.push((64, 64));
+    }
+    for (h, w) in sizes {
         v.push(json!({"quiet": false, "images":[{"h":h,"w":w,"seed":h*100+w,"style":0}],
                       "ops":[{"op":"draw","img":0,"pos":[3,4]},{"op":"draw","img":0,"pos":[3,4]},{"op":"erase","img":0,"pos":[3,4]}]}));
     }
@@ -456,10 +538,24 @@ pub fn generate(rng: &mut Rng, n: usize, tier: &str) -> Vec<Value> {
         "ops":[{"op":"draw","img":0,"pos":[5,7]},{"op":"resp","img":0,"pl":{"pos":[5,7]},"err":true},
                {"op":"draw","img":0,"pos":[5,7]},{"op":"resp","img":0,"pl":Value::Null,"err":true},
                {"op":"draw","img":0,"pos":[1,2]},{"op":"erase","img":0,"pos":[5,7]}]}));
-    let nbig = if tier == "thorough" { n / 12 } else { n / 25 };
+    // the handler interface: names of handler kinds in any letter case, near misses, kind() of each handler
+    for s in ["kitty", "KITTY", "Kitty", "sixel", "SiXeL", "dummy", "DUMMY", "", "kitt", "kittyy", " kitty", "k\u{0131}tty", "K\u{212A}itty", "none", "sixel\n"] {
+        v.push(json!({"kind_str": s}));
+    }
+    for d in ["kitty", "kitty-boxed", "dummy", "dummy-boxed"] {
+        v.push(json!({"kind_of": d}));
+    }
+    // placement ids a terminal could report, incl. 0, 1, the largest id and values beyond 32 bits
+    for raw in [0u64, 1, 2, 458758, 4294967295, 4294967296, u64::MAX] {
+        v.push(json!({"quiet": true, "images":[{"h":2,"w":3,"seed":3,"style":0}],
+            "ops":[{"op":"draw","img":0,"pos":[5,7]},{"op":"resp","img":0,"pl":{"raw":raw},"err":true},
+                   {"op":"draw","img":0,"pos":[5,7]},{"op":"erase","img":0,"pos":[5,7]}]}));
+    }
+    // large images (several chunks) are spread over the run so that the case shards stay balanced
+    let every = if tier == "thorough" { 12 } else { 25 };
     let mut k = 0;
     while v.len() < n {
-        v.push(gen_history(rng, k < nbig));
+        v.push(gen_history(rng, if k % every == 3 { if tier == "thorough" { 2 } else { 1 } } else { 0 }));
         k += 1;
     }
     v
